@@ -310,9 +310,15 @@ class PythonToIrCompiler:
                 f"Does not support {len(ra)} arguments",
             )
 
+        # The loop variable is an ordinary local variable:
+        loop_var = self.get_variable(
+            statement.target, statement.target.id, ty=ir.i64
+        )
+
         entry_block = self.builder.block
         test_block = self.builder.new_block()
         body_block = self.builder.new_block()
+        increment_block = self.builder.new_block()
         final_block = self.builder.new_block()
 
         self.emit(ir.Jump(test_block))
@@ -323,19 +329,19 @@ class PythonToIrCompiler:
         i_phi.set_incoming(entry_block, i_init)
         self.emit(ir.CJump(i_phi, "<", n2, body_block, final_block))
 
-        # Publish looping variable:
-        self.local_map[statement.target.id] = Var(i_phi, False, ir.i64)
-
-        # Body:
-        self.enter_loop(test_block, final_block)
+        # Body, a continue statement must go to the increment:
+        self.enter_loop(increment_block, final_block)
         self.builder.set_block(body_block)
+        self.emit(ir.Store(i_phi, loop_var.value))
         self.gen_statement(statement.body)
         self.leave_loop()
+        self.builder.emit_jump(increment_block)
 
-        # Increment loop variable:
+        # Increment loop counter:
+        self.builder.set_block(increment_block)
         one = self.builder.emit_const(1, ir.i64)
         i_inc = self.builder.emit_add(i_phi, one, ir.i64)
-        i_phi.set_incoming(body_block, i_inc)
+        i_phi.set_incoming(increment_block, i_inc)
 
         # Jump to start again:
         self.builder.emit_jump(test_block)
